@@ -7,7 +7,8 @@ from astload import load_ast
 from cxx2c import Lowerer, Index, node_line
 tu, q = sys.argv[1], sys.argv[2]
 sub = sys.argv[3] if len(sys.argv) > 3 else ''
-root = load_ast(tu, ['-DMANIFOLD_PAR=-1'])
+import os as _os
+root = load_ast(tu, [_os.environ.get('PARDEF', '-DMANIFOLD_PAR=-1')])
 L = Lowerer(root, spec={'unit': 'x', 'targets': []})
 for n in L.idx.funcs.get(q, []):
     if not Index.has_body(n) or n['id'] in L.idx.pattern or sub not in n['type']['qualType']:
